@@ -14,7 +14,7 @@ cp SEEDED.md $OUT/SEEDED.md 2>/dev/null
 export CARGO_NET_OFFLINE=true
 # the demo would be part of --workspace tests: move it aside for the suite run
 mv tests/seeded_demo.rs /tmp/seeded_demo_aside.rs
-FAILED_NAMES=$(cargo test --workspace --no-fail-fast --offline 2>&1 | grep -E "^test .* FAILED" | grep -v "test_write_include" | tr '\n' ';')
+FAILED_NAMES=$(cargo test --workspace --no-fail-fast --offline 2>&1 | grep -E "^test .* FAILED" | grep -v "^test result" | grep -v "test_write_include" | tr '\n' ';')
 OTHER_FAILED=$(echo -n "$FAILED_NAMES" | tr -cd ';' | wc -c)
 mv /tmp/seeded_demo_aside.rs tests/seeded_demo.rs
 cargo test --offline --test seeded_demo >/tmp/demo_with.log 2>&1; WITH=$?
